@@ -41,6 +41,11 @@ def specStepOk (op : String) (before after : List (String × String)) (res : Str
     else []
   else []
 
+def parentMissing (d : Dir) (n : String) : Bool :=
+  match n.splitOn "/" with
+  | dir :: _ :: _ => !d.has dir
+  | _ => false
+
 def parseListing (s : String) : List (String × String) :=
   if s == "-" then [] else (s.splitOn ",").filterMap fun e => match e.splitOn "=" with
     | [n, k] => some (n, k)
@@ -63,9 +68,15 @@ def handleRepo (line : String) : String :=
       let (mres, d') : String × Dir := match f with
         | ["plant", n] => ("ok", d.put n (.other 0))
         | ["plantbad", n] => ("ok", d.put n .badJson)
+        -- a hand-written case file whose driver exists and whose script does not
+        | ["plantcase", n, dr, sc] => ("ok", (d.put n (.case dr sc)).put dr (.other 0))
         | ["plantdir", n] => ("ok", ((d.put n .dir).put (n ++ "/drv.a") (.other 0)).put (n ++ "/lib.a") (.other 0))
-        | ["add", n] => let (ok, d') := add d n (n ++ ".a") (n ++ ".lua") true; (if ok then "ok" else "err", d')
-        | ["addt", n, dr] => let (ok, d') := add d n dr (n ++ ".lua") false; (if ok then "ok" else "err", d')
+        -- a case name inside a sub directory that does not exist: the existence checks pass, writing the case file
+        -- fails, nothing is created (and nothing may be removed)
+        | ["add", n] => if parentMissing d n then ("err", d) else
+            let (ok, d') := add d n (n ++ ".a") (n ++ ".lua") true; (if ok then "ok" else "err", d')
+        | ["addt", n, dr] => if parentMissing d n then ("err", d) else
+            let (ok, d') := add d n dr (n ++ ".lua") false; (if ok then "ok" else "err", d')
         | ["del", n] => let (ok, d') := del d n; (if ok then "ok" else "err", d')
         | ["list"] => (match iterate d with
             | some cs => let ns := (cs.map (·.1)).mergeSort (fun a b => decide (a ≤ b)); s!"ok:{ns.length}:{";".intercalate ns}"
